@@ -25,7 +25,7 @@ SPEC = {'id': 'C31',
                'exactly 1,2,…,k, so quiescent nodes with the same commit index executed the same sequence; '
                'the spawn-per-entry design is refuted by a decided two-entry schedule; the real binary (hook '
                'H3) is run under adversarial delay schedules and its printed execution order compared.',
- 'level_note': 'Holds for the code WITH proposed_fixes/C31-sequential-executor.diff (unchanged code: 39 of '
+ 'level_note': 'Stream limitation (DESIGN §11, seeded C31/s1 missed): no failing actions and no node restart (replay of unexecuted logs by ClusterStorage::new) are driven. Holds for the code WITH proposed_fixes/C31-sequential-executor.diff (unchanged code: 39 of '
                "40 quick-tier schedules execute out of order, also with no injected delay). tokio's "
                "scheduler is abstracted as 'any runnable task may run'; crash/restart (re-execution of "
                'committed-but-unmarked entries in ClusterStorage::new) is outside the quantifier. Needs hook '
